@@ -12,10 +12,17 @@ def callers_index(facts):
     if k not in _IDX:
         idx = {}
         for b in facts.non_test_bodies():
-            for c in b.calls:
-                for n in c.names():
-                    if facts.body(n) is not None:
-                        idx.setdefault(n, []).append((b, c))
+            versions = [b]
+            orig = getattr(facts, "inlined", {}).get(b.id)
+            if orig is not None:
+                versions.append(orig)   # the body before helper inlining still holds the calls to the helpers
+            for v in versions:
+                for c in v.calls:
+                    if v is not b and any(c.bb == c2.bb and c.name == c2.name for c2 in b.calls):
+                        continue
+                    for n in c.names():
+                        if facts.body(n) is not None:
+                            idx.setdefault(n, []).append((v, c))
         _IDX[k] = idx
     return _IDX[k]
 
